@@ -7,7 +7,7 @@ _m(
     "unserialisable leaf - dill cannot pickle it - at a drawn position as attribute / list element / dict value) x store zip|dir x mode "
     "w|o x pre-existing target {absent, earlier successful save of another graph, earlier save of the other store kind at the same "
     "path, unrelated regular file, unrelated non-empty directory} x zip path given with or without the .zip suffix x fault timing "
-    "(before / after the operation) x exception type (OSError ENOSPC, RuntimeError, custom) x compression.  Each case is first saved "
+    "(before / after the operation) x exception type (OSError ENOSPC, RuntimeError, a custom Exception, KeyboardInterrupt) x compression.  Each case is first saved "
     "un-faulted under counting wrappers to learn the number n of fault sites (calls of _serialize_value, _write_ndarray, _write_bytes, "
     "ZipFile.write), then re-saved from a fresh copy of the pre-state with the exception injected at EVERY site k = 1..n (exhaustive in "
     "k for each case).  Siblings with confusable names (t.tmp, t.zip.tmp, .t.zip, t vs t.zip, a sibling directory tree) surround the "
@@ -17,7 +17,6 @@ _m(
         "faults are Python exceptions raised at the named call sites, before or after the wrapped operation ran; a process kill between two "
         "OS-level writes inside zarr/zipfile is not simulated",
         "'loads to a complete object' uses the C01 structural-equality oracle against the new graph and the earlier saved graph",
-        "BaseException-only faults (KeyboardInterrupt) are not injected",
         "temp-file leaks are judged inside a per-process private TMPDIR",
     ],
     workers=(1, 16),
